@@ -215,6 +215,22 @@ func checkGraph(c *graphCase) []h.Failure {
 	if isCycleError(o) {
 		return []h.Failure{{Sig: "modules/false-cycle", Msg: fmt.Sprintf("%s\nno cycle is reachable but a circular dependency is reported:\n%s", desc, o.Display)}}
 	}
+	if strings.HasPrefix(c.Expect, "ok-or-import-error:") {
+		// listing a name the module does not export: whether that is an error is not stated;
+		// if the import is accepted, every exported name of the list must be bound
+		ranMain := false
+		for _, ln := range o.Trace {
+			if ln == "run-main" {
+				ranMain = true
+			}
+		}
+		if o.Kind == h.KError && !ranMain {
+			return nil
+		}
+		c2 := *c
+		c2.Expect = "ok:" + strings.TrimPrefix(c.Expect, "ok-or-import-error:")
+		c = &c2
+	}
 	if c.Expect == "error" {
 		if o.Kind != h.KError {
 			return []h.Failure{{Sig: "modules/probe-error-expected", Msg: fmt.Sprintf("%s\nthe probe must fail; got %s\ntrace: %v", desc, o.Short(), o.Trace)}}
@@ -402,7 +418,7 @@ func TestRandomGraphs(t *testing.T) {
 					dup = true
 				}
 			}
-			switch rapid.IntRange(0, 8).Draw(t, "probe") {
+			switch rapid.IntRange(0, 10).Draw(t, "probe") {
 			case 0: // assignment to an imported name
 				c.Probe = fnName(m, 1) + " = 5\n"
 				c.Expect = "error"
@@ -439,6 +455,44 @@ func TestRandomGraphs(t *testing.T) {
 						c.Expect = "error"
 						labels = append(labels, "probe:transitive-not-visible")
 						break
+					}
+				}
+			case 6, 7, 8: // selective import with a list of several names (any order), possibly
+				// naming things the module does not export: every exported name of the list
+				// must be available (unless the import itself is rejected)
+				if !dup {
+					type item struct{ name, use, shows string }
+					pool := []item{
+						{fnName(m, 1), "（" + fnName(m, 1) + "）", m + "-1"},
+						{fnName(m, 2), "（" + fnName(m, 2) + "）", "[" + m + "-1，" + m + "-obj]"},
+						{clsName(m), "（新建" + clsName(m) + "）之名", m + "-obj"},
+						{fmt.Sprintf("局部%d", c.Edges[0][0]), "", ""},
+						{"无此名", "", ""},
+						{"丁无", "", ""},
+					}
+					perm := rapid.Permutation(pool).Draw(t, "sel-perm")
+					n := rapid.IntRange(2, 5).Draw(t, "sel-n")
+					var names, uses, shows []string
+					unknown := false
+					for _, it := range perm[:n] {
+						names = append(names, it.name)
+						if it.use != "" {
+							uses = append(uses, it.use)
+							shows = append(shows, it.shows)
+						} else {
+							unknown = true
+						}
+					}
+					if len(uses) > 0 {
+						c.Select[0][0] = strings.Join(names, "、")
+						c.Probe = "（显示：“sel”、" + strings.Join(uses, "、") + "）\n"
+						c.Expect = "ok:sel " + strings.Join(shows, " ")
+						if unknown {
+							c.Expect = "ok-or-import-error:sel " + strings.Join(shows, " ")
+							labels = append(labels, "probe:selective-list-with-unknown-name")
+						} else {
+							labels = append(labels, "probe:selective-list")
+						}
 					}
 				}
 			case 5: // the module's type is usable from main
